@@ -27,6 +27,30 @@ static void c08_spin(void);
 #undef SPINLOCK_BODY
 #define SPINLOCK_BODY() c08_spin()
 
+/* lock discipline (m1): the three trylock macros are wrapped (the originals are captured in functions first, so the
+ * working tree's own lock implementation is what runs); after every command a queue whose content or counters
+ * changed without its lock having been taken, or whose lock/unlock events do not balance, is reported */
+static inline void c08_orig_lock(QTHREAD_TRYLOCK_TYPE *x) { QTHREAD_TRYLOCK_LOCK(x); }
+static inline void c08_orig_unlock(QTHREAD_TRYLOCK_TYPE *x) { QTHREAD_TRYLOCK_UNLOCK(x); }
+static inline int  c08_orig_try(QTHREAD_TRYLOCK_TYPE *x) { return QTHREAD_TRYLOCK_TRY(x); }
+#define C08_MAXQ 16
+static int   c08_track = 0;
+static void *c08_lk_ptr[C08_MAXQ];
+static long  c08_lk_n[C08_MAXQ], c08_ul_n[C08_MAXQ];
+static void c08_note(void *x, int unlock)
+{
+    if (!c08_track) return;
+    for (int i = 0; i < C08_MAXQ; i++) if (c08_lk_ptr[i] == x) { if (unlock) c08_ul_n[i]++; else c08_lk_n[i]++; return; }
+}
+static inline void c08_lock(QTHREAD_TRYLOCK_TYPE *x) { c08_orig_lock(x); c08_note(x, 0); }
+static inline void c08_unlock(QTHREAD_TRYLOCK_TYPE *x) { c08_note(x, 1); c08_orig_unlock(x); }
+static inline int  c08_try(QTHREAD_TRYLOCK_TYPE *x) { int r = c08_orig_try(x); if (r) c08_note(x, 0); return r; }
+#undef QTHREAD_TRYLOCK_LOCK
+#undef QTHREAD_TRYLOCK_UNLOCK
+#define QTHREAD_TRYLOCK_LOCK(x)   c08_lock(x)
+#define QTHREAD_TRYLOCK_UNLOCK(x) c08_unlock(x)
+#define QTHREAD_TRYLOCK_TRY(x)    c08_try(x)
+
 #include "threadqueues/sherwood_threadqueues.c"
 
 static __thread int         spin_armed = 0;
@@ -122,21 +146,32 @@ static void fake_setup(int n, int w, long chunk)
         for (int k = 1; k < n; k++) fsh[i].sorted_sheplist[k - 1] = (qthread_shepherd_id_t)((i + k) % n);
         fsh[i].stealing = 0;
     }
+    for (int i = 0; i < C08_MAXQ; i++) { c08_lk_ptr[i] = (i < n) ? (void *)&fsh[i].ready->qlock : NULL; c08_lk_n[i] = c08_ul_n[i] = 0; }
     qlib->nshepherds = n;
     qlib->shepherds  = fsh;
     steal_chunksize  = chunk;
     steal_disable    = 0;
 }
 
+static char *c08_prev_txt[C08_MAXQ];
+static long  c08_prev_lk[C08_MAXQ];
 static void print_audit(void)
 {
-    static char buf[1 << 16];
+    static char buf[1 << 16], cur[1 << 16];
     for (int i = 0; i < FN; i++) {
         long c, s;
         audit_queue(fsh[i].ready, buf, sizeof buf, &c, &s);
+        snprintf(cur, sizeof cur, "[%ld,%ld]%s", fsh[i].ready->qlength, fsh[i].ready->qlength_stealable, buf);
         printf(" q%d[%ld,%ld,%u]%s", i, fsh[i].ready->qlength, fsh[i].ready->qlength_stealable, fsh[i].stealing, buf);
         if (c >= 0 && (c != fsh[i].ready->qlength || s != fsh[i].ready->qlength_stealable))
             printf(" RECOUNT(%ld,%ld)", c, s);
+        if (i < C08_MAXQ && c08_track) {
+            if (c08_prev_txt[i] && strcmp(c08_prev_txt[i], cur) != 0 && c08_lk_n[i] == c08_prev_lk[i]) printf(" NOLOCK(q%d)", i);
+            if (c08_lk_n[i] != c08_ul_n[i]) { printf(" LOCKLEAK(q%d:%ld/%ld)", i, c08_lk_n[i], c08_ul_n[i]); c08_ul_n[i] = c08_lk_n[i]; }
+            free(c08_prev_txt[i]);
+            c08_prev_txt[i] = strdup(cur);
+            c08_prev_lk[i]  = c08_lk_n[i];
+        }
     }
     printf("\n");
 }
@@ -157,6 +192,8 @@ static int mode_m1(void)
         if (c == 'I') {
             sscanf(line + 1, "%ld %ld %ld", &a, &b, &d);
             fake_setup((int)a, (int)b, d);
+            for (int i = 0; i < C08_MAXQ; i++) { free(c08_prev_txt[i]); c08_prev_txt[i] = NULL; c08_prev_lk[i] = 0; }
+            c08_track = 1;
             printf("I |");
         } else if (c == 'E' || c == 'Y') {
             sscanf(line + 1, "%ld %ld %ld %ld", &a, &b, &d, &e);
@@ -267,7 +304,7 @@ static int mode_m1(void)
 
 /* ------------------------------------------------------------------ stress (concurrent, fake workers) */
 typedef struct { int s, w; unsigned long long rng; } sarg_t;
-static long           S_total, S_left, S_consumed;
+static long           S_total, S_left, S_consumed, S_avail;
 static int           *S_seen, *S_want, *S_home, *S_badshep, *S_yleft;
 static int            S_ymax, S_unst_pct;
 
@@ -286,7 +323,13 @@ static void *stress_thread(void *p)
     if (sigsetjmp(spin_jb, 0) != 0) return NULL;
     while (!stress_done) {
         unsigned long long r = sm64(&a->rng);
-        if (S_left > 0 && (r % 3) != 0) {
+        int produce = (S_left > 0 && (r % 3) != 0);
+        if (!produce && S_left > 0) {
+            /* while work is still being produced a worker goes looking for a task only if one is outstanding that no other
+             * looking worker has counted on: otherwise every worker could wait in the scheduler with nothing produced yet */
+            if (__sync_sub_and_fetch(&S_avail, 1) < 0) { __sync_add_and_fetch(&S_avail, 1); produce = 1; }
+        }
+        if (produce) {
             long k = __sync_fetch_and_sub(&S_left, 1);
             if (k > 0) {
                 long       tid  = k;               /* 1..S_total */
@@ -298,6 +341,7 @@ static void *stress_thread(void *p)
                 S_want[tid]  = 1 + S_yleft[tid];
                 __sync_synchronize();
                 qt_threadqueue_enqueue(fsh[dest].ready, t);
+                __sync_add_and_fetch(&S_avail, 1);
                 continue;
             }
         }
@@ -308,6 +352,7 @@ static void *stress_thread(void *p)
         if (S_yleft[tid] > 0) {
             S_yleft[tid]--;
             if (r & 1) qt_threadqueue_enqueue_yielded(me->ready, t); else qt_threadqueue_enqueue(me->ready, t);
+            __sync_add_and_fetch(&S_avail, 1);
             if (S_home[tid] >= 0) S_home[tid] = a->s;
         } else if (__sync_add_and_fetch(&S_consumed, 1) == S_total) {
             stress_done = 1;
@@ -322,7 +367,7 @@ static int mode_stress(int n, int w, long total, long chunk, int ymax, int unst_
     real_tls = TLS_GET(shepherd_structs);
     if (total >= MAXT) total = MAXT - 1;
     fake_setup(n, w, chunk);
-    S_total = S_left = total; S_consumed = 0; S_ymax = ymax; S_unst_pct = unst_pct;
+    S_total = S_left = total; S_consumed = 0; S_avail = 0; S_ymax = ymax; S_unst_pct = unst_pct;
     S_seen = calloc(total + 2, sizeof(int)); S_want = calloc(total + 2, sizeof(int)); S_home = calloc(total + 2, sizeof(int));
     S_badshep = calloc(total + 2, sizeof(int)); S_yleft = calloc(total + 2, sizeof(int));
     for (long i = 1; i <= total; i++) get_desc(i, 0, 0);
@@ -462,6 +507,7 @@ static int mode_live(void)
     qthread_initialize();
     signal(SIGALRM, on_alarm);
     printf("H %u %u %ld\n", (unsigned)qthread_num_shepherds(), (unsigned)qthread_num_workers(), steal_chunksize);
+    fflush(stdout);
     while (fgets(line, sizeof line, stdin)) {
         if (line[0] == 'P') {
             /* P fuel mainprog ; tid prog ; ... */
